@@ -21,14 +21,54 @@ func init() {
 		},
 	})
 	register(&Property{
+		ID: "C40",
+		Explanation: "Decides the decision structure of change detection, not the resulting snapshot contents: (change-detection-fields) in archiver.fileChanged, specialising in turn the comparison of node type, size, mtime, ctime and inode to 'differs' (ctime/inode with the respective ignore flag off) leaves no return other than the constant `true` reachable, and a nil parent node counts as changed; an attribute whose equality comparison is missing is a violation; (reuse-guard) in Archiver.save the store `node.Content = previous.Content` is reachable only with previous != nil, fileChanged false and allBlobsPresent true, fileChanged is handed the parent's node, and allBlobsPresent returns true only after every index lookup succeeded; (skip-if-unchanged) Archiver.Snapshot returns the (nil, nil) 'skipped' result only with a parent snapshot, the SkipIfUnchanged option and an equal root tree ID, never after SaveSnapshot, and SaveSnapshot is reached only on the complementary edges. Not decided: that equal metadata implies equal content (the documented heuristic), tree iteration order, and the parent lookup by path.",
+		Assumptions: commonAssumptions,
+		Technique:   "static analysis: specialised path-sensitive reachability of the 'unchanged' return per compared attribute + CFG edge cuts (go/ssa)",
+		Run: func(c *eng.Ctx) {
+			ruleChangeDetection(c)
+			ruleReuseGuard(c)
+			ruleSkipIfUnchanged(c)
+		},
+		Controls: []Control{
+			{Name: "mtime-only-forward", File: "internal/archiver/archiver.go",
+				Old: "	case !fi.ModTime.Equal(node.ModTime):", New: "	case fi.ModTime.After(node.ModTime):", Rule: "change-detection-fields"},
+			{Name: "inode-check-dropped", File: "internal/archiver/archiver.go",
+				Old: "	case checkInode && node.Inode != fi.Inode:\n		return true\n", New: "	case checkInode && node.Inode != fi.Inode:\n		return false\n", Rule: "change-detection-fields"},
+			{Name: "reuse-without-index-check", File: "internal/archiver/archiver.go",
+				Old: "			if arch.allBlobsPresent(previous) {", New: "			if arch.allBlobsPresent(previous) || previous.Size == 0 {", Rule: "reuse-guard"},
+			{Name: "skip-without-flag", File: "internal/archiver/archiver.go",
+				Old: "	if opts.ParentSnapshot != nil && opts.SkipIfUnchanged {", New: "	if opts.ParentSnapshot != nil {", Rule: "skip-if-unchanged"},
+		},
+	})
+	register(&Property{
+		ID: "C47",
+		Explanation: "Decides the structural half of the blob cache contract: (cache-locks) every access to Cache.c, Cache.free and Cache.inProgress holds Cache.mu (evict is the LRU callback and runs inside LRU calls); (lru-calls-locked) every method call on the simplelru instance is made with mu held; (budget-symmetry) `free` is changed only in add (minus the entry's size, after a loop that evicts while size > free, so free stays >= 0) and in evict (plus the evicted entry's size), both sizes computed by the same cap(blob)+overhead expression, and entries larger than the whole cache are refused before anything is evicted; (inprogress-cleanup) GetOrCompute registers the id in inProgress before unlocking, every path that leaves after registration deletes the entry and closes the channel exactly via the deferred function, and waiters re-check the cache after the channel is closed. Not decided: that the LRU library evicts in recency order, and at-most-once computation per id under all interleavings.",
+		Assumptions: commonAssumptions,
+		Technique:   "static analysis: must-hold locksets over guarded fields + enumeration of budget updates + CFG ordering (go/ssa)",
+		Run: func(c *eng.Ctx) {
+			ruleGuardedFields(c, blobCacheGuard)
+			ruleLRUCallsLocked(c)
+			ruleBudget(c)
+			ruleInProgress(c)
+		},
+		Controls: []Control{
+			{Name: "evict-once", File: "internal/bloblru/cache.go",
+				Old: "	for size > c.free {", New: "	if size > c.free {", Rule: "budget-symmetry"},
+		},
+	})
+	register(&Property{
 		ID: "C45",
-		Explanation: "Decides the 'no entry for other node types' clause: (dumpable-filter) every send of a *data.Node on a channel in package dump — the only way a node reaches the tar/zip writers — is reachable only on an edge where that node's Type equals file, dir or symlink, at the top level of the dumped directory as well as for nested nodes (this rule reported the genuine defect in sendNodes, now fixed); (format-siblings) dumpNodeTar and dumpNodeZip distinguish exactly these three types. Not decided: entry order, permission bits, link targets and content under concurrent blob loading.",
+		Explanation: "Decides the 'no entry for other node types' clause: (dumpable-filter) every send of a *data.Node on a channel in package dump — the only way a node reaches the tar/zip writers — is reachable only on an edge where that node's Type equals file, dir or symlink, at the top level of the dumped directory as well as for nested nodes (this rule reported the genuine defect in sendNodes, now fixed); (format-siblings) dumpNodeTar and dumpNodeZip distinguish exactly these three types. (ordered-content) in Dumper.writeNode the order of a file's blobs survives concurrent loading: every loader goroutine sends the blob it loaded for the loop's element of node.Content on a channel created in that same iteration, the loop itself queues that channel on the FIFO channel of channels, and the single writer goroutine (started once, the only caller of Write) writes what it receives from each queued channel in turn — one shared result channel, or a writer not following the queue, is a violation (added after a seeded change that hoisted the channel out of the loop). Not decided: entry order across directories, permission bits and link targets.",
 		Assumptions: commonAssumptions,
 		Technique:   "static analysis: enumeration of channel sends + CFG edge cuts on the type test of the sent value (go/ssa)",
-		Run:         func(c *eng.Ctx) { ruleDumpableFilter(c) },
+		Run:         func(c *eng.Ctx) { ruleDumpableFilter(c); ruleOrderedContent(c) },
 		Controls: []Control{
 			{Name: "root-nodes-unfiltered", File: "internal/dump/common.go",
 				Old: "	if root.Type != data.NodeTypeFile && root.Type != data.NodeTypeDir && root.Type != data.NodeTypeSymlink {\n		// only files, directories and symlinks are dumped, same as for nested nodes\n		return nil\n	}\n", New: "", Rule: "dumpable-filter"},
+			{Name: "one-result-channel-for-all-blobs", File: "internal/dump/common.go",
+				Old: "loop:\n	for _, id := range node.Content {\n		// This needs to be buffered, so that loaders can quit\n		// without waiting for the writer.\n		ch := make(chan []byte, 1)\n",
+				New: "	ch := make(chan []byte, len(node.Content))\nloop:\n	for _, id := range node.Content {\n", Rule: "ordered-content"},
 			{Name: "nested-filter-admits-fifos", File: "internal/dump/common.go",
 				Old: "		if node.Type != data.NodeTypeFile && node.Type != data.NodeTypeDir && node.Type != data.NodeTypeSymlink {\n			return nil\n		}", New: "		if node.Type == data.NodeTypeSocket {\n			return nil\n		}", Rule: "dumpable-filter"},
 		},
